@@ -129,4 +129,30 @@ func init() {
 			"the request range is [r, applied+1) with r <= applied+1, as LogServer.Replicate computes it",
 		},
 	}
+	props["C01"] = &Property{
+		Title: "a table behaves as an ordered byte-string map",
+		Instances: func(tier string) []*Instance {
+			var r []*Instance
+			fsm := "storage/table/fsm"
+			n, v := int64(2), int64(-1)
+			if tier == "thorough" {
+				n, v = 3, 1
+			}
+			for w := int64(0); w < 3; w++ {
+				r = append(r, &Instance{Pkg: fsm, Func: "VH_C01_reads", Args: []int64{w, n, 2, v}, Unwind: 32})
+			}
+			for k := int64(0); k <= 6; k++ {
+				nk := n
+				if k == 3 || k == 5 {
+					nk = n - 1 // two- and three-key commands: one pair less in the pre-state
+				}
+				r = append(r, &Instance{Pkg: fsm, Func: "VH_C01_step", Args: []int64{k, nk, 2, v, 0}, Unwind: 32})
+			}
+			r = append(r, &Instance{Pkg: fsm, Func: "VH_C01_step", Args: []int64{6, 1, 1, -1, 1}, Unwind: 32})
+			r = append(r, &Instance{Pkg: fsm, Func: "VH_C01_vacuity", Args: []int64{2, 2, 1}, Expect: "violated"})
+			return r
+		},
+		Covers: map[string][]string{"VH_C01_reads": {"end"}, "VH_C01_step": {"end"}},
+		Bounds: map[string]string{"quick": "TBD", "thorough": "TBD"},
+	}
 }
